@@ -125,7 +125,9 @@ pub fn case<G: CurveTag>(bytes: &[u8], col: &mut Collector, cmax: usize) -> Resu
         steps.push(c);
     }
     let roundtrip_at = if ch.chance(90) { Some(ch.below(nsteps + 1)) } else { None };
-    let desc = |s: String| json!({"curve": G::CURVE.name(), "new": [c0, parties], "increase_capacity": steps, "roundtrip_after_step": roundtrip_at, "at": s});
+    // the object is overwritten in place (`clone_from`) with a freshly made one of another size
+    let clone_from_at: Option<(usize, usize)> = if ch.chance(50) { Some((ch.below(nsteps + 1), ch.below(cmax / 2 + 1))) } else { None };
+    let desc = |s: String| json!({"curve": G::CURVE.name(), "new": [c0, parties], "increase_capacity": steps, "roundtrip_after_step": roundtrip_at, "clone_from_after_step": clone_from_at, "at": s});
     let mut gens = match guarded(|| BulletproofGens::<G>::new(c0, parties)) {
         Ok(g) => g,
         Err(p) => return Err(Failure::new("C12:new-panic", format!("BulletproofGens::new({}, {}) panicked: {}", c0, parties, p), desc("new".into()))),
@@ -141,6 +143,26 @@ pub fn case<G: CurveTag>(bytes: &[u8], col: &mut Collector, cmax: usize) -> Resu
             if c > cap {
                 cap = c;
                 real_increase += 1;
+            }
+        }
+        if let Some((at, small)) = clone_from_at {
+            if at == step {
+                let r = guarded(|| {
+                    let src = BulletproofGens::<G>::new(small, parties);
+                    gens.clone_from(&src);
+                    let copy = gens.clone();
+                    let (mut a, mut b) = (vec![], vec![]);
+                    copy.serialize_compressed(&mut a).unwrap();
+                    src.serialize_compressed(&mut b).unwrap();
+                    a == b
+                });
+                match r {
+                    Err(p) => return Err(Failure::new("C12:clone-panic", format!("clone_from / clone panicked: {}", p), desc(format!("step {}", step)))),
+                    Ok(false) => return Err(Failure::new("C12:clone-from", format!("after clone_from(new({}, {})) the object does not serialise like its source", small, parties), desc(format!("step {}", step)))),
+                    Ok(true) => {}
+                }
+                cap = small;
+                col.class("clone_from");
             }
         }
         if roundtrip_at == Some(step) {
@@ -253,6 +275,25 @@ fn static_checks<G: CurveTag>(col: &mut Collector, count: usize, beyond_u16: boo
         }
     }
     col.class("many-parties");
+    // one party, far along the chain (thorough tier): one step to beyond 2^17 generators, and the
+    // same capacity reached from a small object
+    if count > 64 {
+        let deep_n = 131_072 + 130;
+        let eg = refgens::gens_uncached::<G>(b'G', 0, deep_n);
+        let eh = refgens::gens_uncached::<G>(b'H', 0, deep_n);
+        let direct = BulletproofGens::<G>::new(deep_n, 1);
+        let mut grown = BulletproofGens::<G>::new(100, 1);
+        grown.increase_capacity(deep_n);
+        for (name, g) in [("new(131202, 1)", &direct), ("new(100, 1) + increase_capacity(131202)", &grown)] {
+            col.evals_add(2);
+            let gg: Vec<G> = g.G(deep_n, 1).cloned().collect();
+            let hh: Vec<G> = g.H(deep_n, 1).cloned().collect();
+            if let Some(i) = (0..deep_n).find(|i| gg.get(*i) != Some(&eg[*i]) || hh.get(*i) != Some(&eh[*i])) {
+                out.push(Failure::new("C12:deep-chain-value", format!("{}: generator {} differs from the history-free derivation", name, i), what(&format!("index {}", i))));
+            }
+        }
+        col.class("deep-chain(>2^17)");
+    }
     // Pedersen bases as documented
     let (b, bb) = refgens::pedersen::<G>();
     if pc.B != b || pc.B != G::generator() {
